@@ -490,6 +490,9 @@ func C15(c *vlib.Ctx) {
 			if invalidAt >= 0 {
 				wit["invalid_item"] = batch[invalidAt]
 			}
+			if k < 2 && ci < 3 {
+				c.Sample(wit)
+			}
 			accepted := resp.Status == 200
 			if !accepted {
 				if len(add)+len(rem)+len(chg) > 0 {
@@ -611,9 +614,6 @@ func C15(c *vlib.Ctx) {
 			}
 			if len(rem) > 0 && !(cfg.DropOld && capacity == "over") {
 				c.Violation(vlib.Signature{"class": "accepted_publish_removed_messages", "backend": backend}, fmt.Sprintf("publish removed %d messages without drop_oldest pressure", len(rem)), wit)
-			}
-			if ci < 1 && k < 2 {
-				c.Sample(wit)
 			}
 			// keep the queue from filling completely: ack some through the store
 			if cfg.MaxDepth > 0 && r.Chance(0.5) {
